@@ -125,7 +125,23 @@ func c11Build(p gPos, cands []string) cfg.Config {
 	return c
 }
 
+// allPositions places every candidate into every position that admits several candidates per configuration at once
+// (each occurrence on keys of its own): what a position accepts must not depend on the string occurring elsewhere.
+func allPositions() gPos {
+	ps := c11Positions()
+	return gPos{name: "all-positions", place: func(c *cfg.Config, i int, s string) {
+		for pi, p := range ps {
+			if !p.single {
+				p.place(c, i*64+pi, s)
+			}
+		}
+	}}
+}
+
 func findPos(name string) (gPos, bool) {
+	if name == "all-positions" {
+		return allPositions(), true
+	}
 	for _, p := range c11Positions() {
 		if p.name == name {
 			return p, true
@@ -537,6 +553,24 @@ func TestC11(t *testing.T) {
 			}
 		}
 		col.Exhaustive(fmt.Sprintf("%d recombined reference forms (prefix x import spelling x 1-3 selectors x suffix) in the six positions that take Go references", len(forms)))
+	}
+
+	// (a3) one string in every position of one configuration at once: the verdict of a position must not depend on the
+	// same string having been accepted or refused in another position (or earlier in the same position)
+	{
+		strs := append(c11Strings(pick(2, 3)), "my-tag", "a.b", "a-b", "A_1", "Beta{}", "pkg.New", "*a.T", `"a/b".T`, "a/b.T", "&a.T{}", "GetX", "getX", "MustX", "XInContext")
+		for i := 0; i < len(strs); i += 60 {
+			idx++
+			if !ev.Mine(idx) {
+				continue
+			}
+			j := i + 60
+			if j > len(strs) {
+				j = len(strs)
+			}
+			c11Eval(t, c11Case{Position: "all-positions", Candidates: strs[i:j]})
+		}
+		col.Exhaustive(fmt.Sprintf("%d strings, each placed in all 19 multi-valued positions of one configuration at once", len(strs)))
 	}
 
 	// (c) node kinds, call and tag shapes, scope keywords, creation-method rules, todo exemption
